@@ -14,6 +14,15 @@ class Unsat(Exception):
 
 def solve(clauses, nvars=None, order=None, phase=False, assumptions=()):
     """Return a total model as list of signed ints (index i -> var i+1) or None."""
+    for m in _search(clauses, nvars, order, phase, assumptions, None):
+        return m
+    return None
+
+
+def _search(clauses, nvars, order, phase, assumptions, proj):
+    """DPLL core as a generator. proj=None: yield the first model and stop. proj=set of
+    variables: decide those first and yield one model per projected assignment that extends
+    to a model (after a model, only decisions on projection variables are revisited)."""
     if nvars is None:
         nvars = 0
         for c in clauses:
@@ -34,7 +43,7 @@ def solve(clauses, nvars=None, order=None, phase=False, assumptions=()):
     for c in clauses:
         c = list(dict.fromkeys(c))
         if not c:
-            return None
+            return
         taut = False
         s = set(c)
         for l in c:
@@ -116,27 +125,56 @@ def solve(clauses, nvars=None, order=None, phase=False, assumptions=()):
 
     for u in units:
         if not enqueue(u):
-            return None
+            return
     for a in assumptions:
         if not enqueue(a):
-            return None
+            return
     if not propagate():
-        return None
+        return
 
     order = list(order) if order is not None else list(range(1, nvars + 1))
+    if proj is not None:
+        order = [v for v in order if v in proj] + [v for v in order if v not in proj]
+    known = set(order)
+    order += [v for v in range(1, nvars + 1) if v not in known]
     pos = 0
-    # decision stack: (trail length before, decision literal, flipped?)
+    # decision stack entries: (trail length before, decision literal, flipped?, position in order)
     stack = []
+
+    def undo(tl):
+        for l in trail[tl:]:
+            val[abs(l)] = 0
+        del trail[tl:]
+
+    def backtrack(proj_only):
+        """Flip the deepest unflipped decision (restricted to projection variables when
+        proj_only) and propagate; repeat on conflict. False when the search is exhausted."""
+        nonlocal qhead, pos
+        while True:
+            while stack and (stack[-1][2] or (proj_only and abs(stack[-1][1]) not in proj)):
+                undo(stack.pop()[0])
+            if not stack:
+                return False
+            tl, d0, _, p0 = stack.pop()
+            undo(tl)
+            stack.append((tl, -d0, True, p0))
+            val[abs(d0)] = 1 if -d0 > 0 else -1
+            trail.append(-d0)
+            qhead = len(trail) - 1
+            pos = p0
+            proj_only = False
+            if propagate():
+                return True
+
     while True:
-        # pick next unassigned
         while pos < len(order) and val[order[pos]] != 0:
             pos += 1
         if pos >= len(order):
-            # any var not in order?
-            rest = [v for v in range(1, nvars + 1) if val[v] == 0]
-            if not rest:
-                return [v if val[v] > 0 else -v for v in range(1, nvars + 1)]
-            order = order + rest
+            yield [v if val[v] > 0 else -v for v in range(1, nvars + 1)]
+            if proj is None:
+                return
+            if not backtrack(True):
+                return
             continue
         v = order[pos]
         d = v if phase else -v
@@ -144,25 +182,14 @@ def solve(clauses, nvars=None, order=None, phase=False, assumptions=()):
         val[v] = 1 if d > 0 else -1
         trail.append(d)
         qhead = len(trail) - 1
-        while not propagate():
-            # backtrack
-            while stack and stack[-1][2]:
-                tl, d0, _, p0 = stack.pop()
-                for l in trail[tl:]:
-                    val[abs(l)] = 0
-                del trail[tl:]
-            if not stack:
-                return None
-            tl, d0, _, p0 = stack.pop()
-            for l in trail[tl:]:
-                val[abs(l)] = 0
-            del trail[tl:]
-            stack.append((tl, -d0, True, p0))
-            val[abs(d0)] = 1 if -d0 > 0 else -1
-            trail.append(-d0)
-            qhead = len(trail) - 1
-            pos = p0
-        # continue
+        if not propagate():
+            if not backtrack(False):
+                return
+
+
+def iter_models_proj(clauses, nvars, project, order=None, phase=False):
+    """Enumerate models distinct on `project` with one incremental search (no restarts)."""
+    return _search(clauses, nvars, order, phase, (), set(project))
 
 
 def iter_models(clauses, nvars=None, project=None, limit=None, order=None, phase=False):
